@@ -301,6 +301,37 @@ def build_longrun(env, nfail, aeads):
     return cw
 
 
+def build_special_tags(env, reps):
+    """Genuine AES-GCM messages whose tag is all zero / all ones / a single set bit (probability 2^-128 each,
+    constructed by linear algebra over the reference AEAD): they are the next in-sequence message and must open."""
+    from lib import directed
+    from ref import aead as refaead
+    g = gen.G(env.rnd)
+    cw = cl.CaseW()
+    targets = [bytes(16), b"\xff" * 16, bytes(15) + b"\x01", b"\x80" + bytes(15), bytes(8) + b"\xff" * 8]
+    n = 0
+    for aead in (1, 2):
+        for r in range(reps):
+            key, bn, es = g.raw(refaead.params(aead)[0]), g.raw(12), g.raw(32)
+            s = cw.session(0x0020, 1, aead, sid="T%d" % n)
+            n += 1
+            s.call("raw_s", key=key, bn=bn, es=es, out="S")
+            s.call("raw_r", key=key, bn=bn, es=es, out="R")
+            for i, tgt in enumerate(targets):
+                aad = g.raw(env.rnd.choice([0, 5]))
+                nonce_i = bytes(a ^ b for a, b in zip(bn, i.to_bytes(12, "big")))
+                pt = directed.gcm_plaintext_for_tag(aead, key, nonce_i, aad, tgt)
+                if pt is None:
+                    pt = g.raw(16)
+                api = "inplace" if (i + r) & 1 else "alloc"
+                s.call("seal", ctx="S", api=api, pt=pt, aad=aad, out="m%d" % i, special_tag=tgt.hex())
+                if (i + r) & 2:
+                    s.call("open", ctx="R", api="alloc", ct="$m%d.full" % i, aad=aad, kind="next_special_tag")
+                else:
+                    s.call("open", ctx="R", api="inplace", ct="$m%d.ct" % i, tag="$m%d.tag" % i, aad=aad, kind="next_special_tag")
+    return cw
+
+
 def build_foreign(env):
     g = gen.G(env.rnd)
     cw = cl.CaseW()
@@ -323,7 +354,7 @@ def build_foreign(env):
     return cw
 
 
-MONITORS = {"histories": monitor, "longrun": monitor, "foreign": monitor}
+MONITORS = {"histories": monitor, "longrun": monitor, "foreign": monitor, "special_tags": monitor}
 
 
 def run(env):
@@ -337,6 +368,11 @@ def run(env):
     env.require_complete(res_f, "histories/fast")
     env.pmap(monitor, res_f.sessions, workload="histories")
     env.extra_cov["histories"] = mr.counts["histories"]
+    res4 = env.drive("special_tags", build_special_tags(env, env.pick(2, 12)).text())
+    env.require_complete(res4, "special_tags")
+    mr4 = env.pmap(monitor, res4.sessions, workload="special_tags")
+    got = sum(1 for s4 in res4.sessions for o in s4.ops if o.op == "seal" and o.ok() and "special_tag" in o.args and (o.ret.get("tag") or o.ret.get("full", "")[-32:]) == o.args["special_tag"])
+    env.extra_cov["genuine_messages_with_constructed_tags"] = got
     aeads = [gen.SEAL_AEADS[env.seed % 3]] if env.quick() else gen.SEAL_AEADS
     res2 = env.drive("longrun", build_longrun(env, env.pick(66000, 140000), aeads).text())
     env.require_complete(res2, "longrun")
@@ -345,7 +381,7 @@ def run(env):
     if not env.quick():
         ftext = build_foreign(env).text()
         foreign = {}
-        for target in ("i686-unknown-linux-gnu", "s390x-unknown-linux-gnu"):
+        for target in ("i686-unknown-linux-gnu", "s390x-unknown-linux-gnu", "aarch64-unknown-linux-gnu"):
             sessions, note = fw.run_miri(env, "foreign-" + target.split("-")[0], ftext, target=target)
             foreign[target] = note
             if sessions is not None:
